@@ -809,7 +809,7 @@ func TestVerifC06(t *testing.T) {
 	m.Require("outcome_found", "outcome_notfound", "outcome_notapplicable", "outcome_timeout",
 		"outcome_found_tls", "outcome_found_http", "quic_found", "guard_selftest_fault_caught", "quic_codec_validated_against_quic_go",
 		"bytes_preserved_found", "bytes_preserved_timeout", "bytes_preserved_notapplicable", "bytes_preserved_notfound",
-		"deadline_set_and_cleared", "conn_tcp", "conn_nodl", "read_buffer_filled_to_capacity", "direct_extractSniFromTls", "direct_sniffQuicBlock", "direct_sniffHTTPHostHeader")
+		"deadline_set_and_cleared", "quic_session_second_attempt_found", "conn_tcp", "conn_nodl", "read_buffer_filled_to_capacity", "direct_extractSniFromTls", "direct_sniffQuicBlock", "direct_sniffHTTPHostHeader")
 	m.Done(t)
 }
 
@@ -970,6 +970,84 @@ func (x *c06Run) quic() {
 		m.Eval(2)
 		x.j.direct(x.a, "ReassembleCryptos", "hostile/"+kind, payload, false, false, c06DirectFrames)
 		x.j.direct(x.a, "sniffQuicBlock", "hostile/"+kind, pkt, false, true, c06DirectQuicBlock)
+	}
+	// 3c. one sniffing session over several attempts, as control.handlePkt drives it: every datagram
+	// goes AppendData -> SniffUdp; an answer without NeedMore ends the attempt and the session is
+	// compacted, and the same session then serves the flow's later Initials (client retransmission
+	// of the same ClientHello under the same DCID). A first attempt that was cut short by a damaged
+	// datagram must not leave anything behind that breaks the second one.
+	for i := 0; i < vk.Scale(300, 6000) && !x.stop(); i++ {
+		h := hellos[r.IntN(len(hellos))]
+		if h.name == "" {
+			continue
+		}
+		v := []uint32{c06QuicV1, c06QuicV2}[r.IntN(2)]
+		pl := c06ScatterHello(r, v, h.hs, r.IntN(3) == 0)
+		if len(pl.Datagrams) < 2 {
+			continue
+		}
+		m.Eval(1)
+		keep := 1 + r.IntN(len(pl.Datagrams)-1) // datagrams of the first attempt before the damaged one
+		damaged := append([]byte(nil), pl.Datagrams[keep]...)
+		damaged[len(damaged)-1-r.IntN(min(16, len(damaged)-1))] ^= 0x5a // AEAD tag / payload: the packet no longer opens
+		var steps []string
+		var panicked string
+		found, name := false, ""
+		func() {
+			defer func() {
+				if rec := recover(); rec != nil {
+					panicked = c06PanicString(rec)
+				}
+			}()
+			s := NewPacketSniffer(nil, time.Second)
+			defer func() { _ = s.Close() }()
+			feed := func(tag string, d []byte) (done bool) {
+				s.AppendData(append([]byte(nil), d...))
+				n, err := s.SniffUdp()
+				steps = append(steps, fmt.Sprintf("%s: %s needMore=%v", tag, c06Outcome(n, err), s.NeedMore()))
+				if s.NeedMore() {
+					return false
+				}
+				if err == nil {
+					found, name = true, n
+				}
+				s.CompactPacketState()
+				return true
+			}
+			ended := false
+			for k := 0; k < keep && !ended; k++ {
+				ended = feed(fmt.Sprintf("attempt1/datagram%d", k), pl.Datagrams[k])
+			}
+			if ended { // the first datagrams already completed (or refused) the hello: nothing left to reuse
+				return
+			}
+			if !feed("attempt1/damaged-datagram", damaged) {
+				m.Count("quic_session_damaged_datagram_still_needmore", 1)
+				return
+			}
+			m.Count("quic_session_first_attempt_cut_short", 1)
+			found, name = false, ""
+			for k, d := range pl.Datagrams {
+				if feed(fmt.Sprintf("attempt2/datagram%d", k), d) {
+					break
+				}
+			}
+			m.Count("quic_session_second_attempts", 1)
+		}()
+		wit := func() map[string]any {
+			return map[string]any{"carried_name": h.name, "quic_version": fmt.Sprintf("%#x", v), "scatter_class": pl.Class(), "datagrams_before_damaged": keep, "steps": steps, "panic": panicked}
+		}
+		if panicked != "" {
+			x.j.viol("panic/quic/"+c06PanicKind(panicked)+"/session-reuse", "SniffUdp panicked on a session that had been compacted after an unfinished attempt", wit())
+			continue
+		}
+		if len(steps) > keep+1 { // a second attempt took place
+			last := steps[len(steps)-1]
+			if x.j.nameRule("quic", "session-reuse", c06MustFind, h.name, found, name, last, wit, nil) {
+				m.Count("quic_session_second_attempt_found", 1)
+				m.Distinct(fmt.Sprintf("quic-session|%s|keep%d", pl.Class(), keep))
+			}
+		}
 	}
 	// 4. negative: truncations and flips of single-datagram flights, junk
 	for i, c := range singles {
